@@ -34,6 +34,12 @@ def omin (a b : Dist) : Dist :=
   | none, some y => some y
   | some x, some y => if y < x then some y else some x
 
+/-- `dv > c` where `dv` may be the sentinel -/
+def gtD (dv : Dist) (c : Rat) : Bool :=
+  match dv with
+  | none => true
+  | some b => decide (c < b)
+
 /-! ### matrices (`T** D`) -/
 
 abbrev Mat := Array (Array Dist)
@@ -52,10 +58,13 @@ def Mat.const (n : Nat) (x : Dist) : Mat := Array.replicate n (Array.replicate n
 def fwDiag (n : Nat) : Mat :=
   (List.range n).foldl (fun D i => D.set i i (some 0)) (Mat.const n none)
 
-/-- second loop: `D[u][v] = D[v][u] = w` for every edge in order — a plain assignment: a later
-    parallel edge overwrites an earlier one, a self-loop overwrites the zero diagonal -/
+/-- second loop as it is in /repo now (after `fix: floyd_warshall keeps the lightest parallel edge
+    and ignores self-loops`):  `if (u != v && w < D[u][v]) D[u][v] = D[v][u] = w;` -/
 def fwEdges (es : List (Nat × Nat × Rat)) (D : Mat) : Mat :=
-  es.foldl (fun D e => (D.set e.2.1 e.1 (some e.2.2)).set e.1 e.2.1 (some e.2.2)) D
+  es.foldl (fun D e =>
+    if e.1 ≠ e.2.1 ∧ gtD (D.get e.1 e.2.1) e.2.2 = true then
+      (D.set e.2.1 e.1 (some e.2.2)).set e.1 e.2.1 (some e.2.2)
+    else D) D
 
 def fwInit (g : Graph) : Mat := fwEdges g.edges (fwDiag g.n)
 
@@ -70,16 +79,13 @@ def fwLoop (n : Nat) (D : Mat) : Mat := (List.range n).foldl (fun D k => fwRound
 
 def floydWarshall (g : Graph) : Mat := fwLoop g.n (fwInit g)
 
-/-- the repaired initialisation proposed for /repo: keep the minimum over parallel edges and
-    ignore self-loops -/
-def fwEdgesFixed (es : List (Nat × Nat × Rat)) (D : Mat) : Mat :=
-  es.foldl (fun D e =>
-    if e.1 = e.2.1 then D
-    else
-      let x := omin (D.get e.1 e.2.1) (some e.2.2)
-      (D.set e.2.1 e.1 x).set e.1 e.2.1 x) D
+/-- second loop as it was before that fix: the plain assignment `D[u][v] = D[v][u] = w` for every
+    edge in order — a later parallel edge overwrites an earlier one, a self-loop overwrites the
+    zero diagonal (the defect found by this property) -/
+def fwEdgesOrig (es : List (Nat × Nat × Rat)) (D : Mat) : Mat :=
+  es.foldl (fun D e => (D.set e.2.1 e.1 (some e.2.2)).set e.1 e.2.1 (some e.2.2)) D
 
-def floydWarshallFixed (g : Graph) : Mat := fwLoop g.n (fwEdgesFixed g.edges (fwDiag g.n))
+def floydWarshallOrig (g : Graph) : Mat := fwLoop g.n (fwEdgesOrig g.edges (fwDiag g.n))
 
 /-! ### dijkstra / johnsons -/
 
@@ -90,12 +96,6 @@ def adj (es : List (Nat × Nat × Rat)) (u : Nat) : List (Nat × Rat) :=
   | [] => []
   | (a, b, w) :: rest =>
     (if a = u then [(b, w)] else []) ++ ((if b = u then [(a, w)] else []) ++ adj rest u)
-
-/-- `dv > c` where `dv` may be the sentinel -/
-def gtD (dv : Dist) (c : Rat) : Bool :=
-  match dv with
-  | none => true
-  | some b => decide (c < b)
 
 abbrev Vec := Array Dist
 def Vec.at (d : Vec) (v : Nat) : Dist := (d[v]?).getD none
